@@ -767,3 +767,28 @@ PROPS["C09"] = dict(
     trusted_base=MIR_TB,
     mir=True,
 )
+
+PROPS["C41"]["functions"] += [
+    "OneResourcePoolBlueprint::contribute (with_state, the four-state case analysis, mint arithmetic)",
+    "TwoResourcePoolBlueprint::contribute: the arms with units in circulation (one-sided liquidity on either side; normal "
+    "operation incl. the [required-1, required-2] candidate pipeline with filter_map / map / max_by), take_advanced rounding, "
+    "deposits, change bucket"]
+PROPS["C41"]["bounds"] += ("; contribute: every contribution, reserve and unit supply <= 10^12 units; one-resource pool: all "
+                           "four pool states; two-resource pool: one run per arm, divisibilities (18,18) for the one-sided "
+                           "arms (held), (0,18) [thorough (18,0), (6,2)] for the fairness of the normal and one-sided arms "
+                           "(KNOWN FINDING, see known_findings.txt), conservation of the contributed amounts (thorough)")
+PROPS["C41"]["outside"] = ("the two-resource pool's new-pool arm (square roots), the fairness of its normal arm at "
+                           "divisibility 18 (the solver does not decide the non-linear query within 200 s), the "
+                           "multi-resource pool's contribute, redeem's vault / bucket calls around calculate_amount_owed, "
+                           "protected_deposit / withdraw, v1_0 logic (superseded), reserves maps with more entries")
+PROPS["C41"]["assumptions"] += [
+    "contribute: the pool's state field, vault / bucket amounts, Bucket::take_advanced (rounds down to the resource's "
+    "divisibility), Vault::put, ResourceManager::{total_supply, mint_fungible}, drop_empty and events are environment stubs over "
+    "a symbolic resource ledger; natively the real functions run over the MockApi resource ledger"]
+PROPS["C03"]["functions"].append(
+    "radix_engine::blueprints::resource::FungibleVaultBlueprint::{lock_amount, unlock_amount} (liquid <-> locked moves; "
+    "the same obligations as C10, registered under C03 for their conservation clause)")
+PROPS["C06"]["functions"].append("SystemLoanFeeReserve::repay_all (deferred execution / finalization units, loan repayment)")
+PROPS["C06"]["bounds"] += ("; repay_all: one step from an arbitrary reserve state with any committed and deferred units (no "
+                           "deferred storage)")
+PROPS["C06"]["outside"] = PROPS["C06"]["outside"].replace("repay_all / consume_royalty", "deferred storage in repay_all, consume_royalty")
